@@ -216,7 +216,8 @@ def run(tier, seed):
                           function="peek_bits", obj="inc")
             # the request passed to the callback is (32 - bits) / 8
             cbs = [c for c in f.insts() if c.op == "call" and c.callee is None]
-            okc = len(cbs) == 1 and M.match(("bin", "udiv", ("bin", "sub", 32, ("load", ("field", "BitStreamReader", "bits", ("param", 0)))), 8), cbs[0].ops[1], {}) is not None
+            FREE = ("bin", "sub", 32, ("load", ("field", "BitStreamReader", "bits", ("param", 0))))
+            okc = len(cbs) == 1 and (M.match(("bin", "udiv", FREE, 8), cbs[0].ops[1], {}) is not None or M.match(("bin", "lshr", FREE, 3), cbs[0].ops[1], {}) is not None)
             rep.check(rid, okc, "peek_bits asks the callback for (32 - bits) / 8 bytes", f.file, None, function="peek_bits", obj="request")
         for f in plain.fns("read_bits")[:1]:
             M = Matcher(f)
